@@ -122,6 +122,8 @@ def run_c17(prop, tier, seed, replay=None):
         scen += [{"kind": "lifecycle", "steps": [{"op": "Backlog", "stop": "behind"}]} for _ in range(2 * reps)]
         scen += [{"kind": "lifecycle", "steps": [{"op": "PeerFaults", "stop": "ahead"}]} for _ in range(3 * reps)]
         scen += [{"kind": "lifecycle", "steps": [{"op": "Backlog", "stop": "leaving"}]} for _ in range(2 * reps)]
+        # the "dead" stop point realised as a torrent that AddTorrent refused (its hash is already listed)
+        scen += [{"kind": "refused", "steps": []} for _ in range(reps)]
         # Lifecycle!KillIsComplete: deletion while a piece is being hashed
         scen += [{"kind": "killhash", "steps": []} for _ in range(2 * reps)]
         for i, sc in enumerate(scen):
@@ -154,7 +156,7 @@ def run_c02(prop, tier, seed, replay=None):
         r = run_tlc("MCReader", "Reader_mc.cfg", workers=16, timeout=1800)
         require_ok(r, "Reader model checking")
         v.add_tlc("Reader_mc.cfg", r)
-        n = 8 if tier == "quick" else 150
+        n = 60 if tier == "quick" else 400
         scen = []
         for k, (off, ln) in enumerate(READER_RANGES):
             r = run_tlc("MCReader", "Reader_sim%d.cfg" % (k + 1), workers=1, simulate=n, depth=17, seed=seed + k, timeout=1800)
